@@ -222,6 +222,7 @@ func checkC02(c *Ctx) {
 	ruleT3(c, pipePkgs, 8)
 	ruleX5b(c)
 	ruleX1b(c)
+	ruleT1c(c)
 }
 
 func checkC04(c *Ctx) {
@@ -237,9 +238,10 @@ func checkC04(c *Ctx) {
 	ruleP2(c, pipePkgs, 15)
 	ruleP3(c)
 	ruleT1(c)
+	ruleT1c(c)
+	ruleX5b(c)
 	// the pipes are closed by wg.Operation().PostHook(close): a WaitGroup.Wait that can miss the last Done
 	// leaves the output open for ever
-	ruleX5b(c)
 	// a worker that sees a context error must stop: the classification table decides that
 	ruleE8(c)
 	wgOwner := map[string]bool{"fun.WaitGroup": true}
@@ -280,6 +282,7 @@ func checkC06(c *Ctx) {
 	ruleW9(c, dequeOwner, 1)
 	ruleD9v(c, map[string]bool{"pubsub": true}, 3)
 	ruleX7(c)
+	ruleX10(c, "pubsub", "Deque", 8)
 }
 
 func checkC07(c *Ctx) {
@@ -303,6 +306,7 @@ func checkC08(c *Ctx) {
 	c.R.NotCov = append(c.R.NotCov, "exactly-once / ordering over subscribe-unsubscribe timing", "FIFO of the distributor", "duplicates across several workers")
 	ruleBroker(c)
 	ruleBroker2(c)
+	ruleBroker3(c)
 	ruleD9v(c, map[string]bool{"pubsub": true}, 3)
 	ruleG1(c, map[string]bool{"pubsub": true}, 3)
 	ruleB1(c, map[string]bool{"pubsub": true}, 30)
@@ -393,6 +397,7 @@ func checkC16(c *Ctx) {
 	ruleQ34(c, 3)
 	ruleQ67(c)
 	ruleD3k(c)
+	ruleX10(c, "dt", "List", 4)
 }
 
 func checkC17(c *Ctx) {
@@ -435,6 +440,7 @@ func checkC19(c *Ctx) {
 	ruleH(c)
 	ruleH56(c)
 	ruleH2(c)
+	ruleH1b(c)
 }
 
 func checkC20(c *Ctx) {
